@@ -1284,7 +1284,8 @@ fn parse_tag(r: &serde_json::Value) -> Option<(String, u64, u64)> {
     let from_req = |q: &str| -> Option<(String, u64, u64)> {
         let tag = q.split(' ').find(|f| f.starts_with('@'))?;
         let p: Vec<&str> = tag[1..].split('/').collect();
-        if p.len() == 3 { Some((p[0].to_string(), p[1].parse().ok()?, p[2].parse().ok()?)) } else { None }
+        // (the case field of the exhaustive stream is a group-index list: the whole stream is re-run)
+        if p.len() == 3 { Some((p[0].to_string(), p[1].parse().ok()?, p[2].parse().unwrap_or(0))) } else { None }
     };
     if let Some(q) = r["disagreement"]["request"].as_str() {
         return from_req(q);
@@ -1332,16 +1333,16 @@ pub fn run(driver: &Driver, seed: u64, thorough: bool, replay: Option<&serde_jso
     regressions(&mut or_rg);
     let mut or_w = Oracle::new("c19.width");
     w_exhaustive(driver, &mut or_w, seed, thorough, &mut rep);
-    w_random(driver, &mut or_w, seed, if thorough { 200_000 } else { 4000 }, None, &mut rep);
-    w_file(driver, &mut or_w, seed, if thorough { 20_000 } else { 500 }, None, &mut rep);
+    w_random(driver, &mut or_w, seed, if thorough { 200_000 } else { 8000 }, None, &mut rep);
+    w_file(driver, &mut or_w, seed, if thorough { 20_000 } else { 1000 }, None, &mut rep);
     w_outside(driver, seed, if thorough { 50_000 } else { 1500 }, &mut rep);
     simple_streams(driver, &mut or_w, seed, if thorough { 50_000 } else { 1500 }, &mut rep);
     let mut or_rt = Oracle::new("c19.roundtrip");
-    cmap_write(driver, &mut or_rt, seed, if thorough { 100_000 } else { 2500 }, None, &mut rep);
+    cmap_write(driver, &mut or_rt, seed, if thorough { 100_000 } else { 5000 }, None, &mut rep);
     let mut or_sp = Oracle::new("c19.cmapspec");
-    cmap_parse(driver, &mut or_sp, seed, if thorough { 100_000 } else { 2500 }, None, &mut rep);
-    cmap_file(driver, &mut or_sp, seed, if thorough { 10_000 } else { 300 }, None, &mut rep);
-    cmap_outside(driver, seed, if thorough { 100_000 } else { 2500 }, &mut rep);
+    cmap_parse(driver, &mut or_sp, seed, if thorough { 100_000 } else { 5000 }, None, &mut rep);
+    cmap_file(driver, &mut or_sp, seed, if thorough { 10_000 } else { 600 }, None, &mut rep);
+    cmap_outside(driver, seed, if thorough { 100_000 } else { 4000 }, &mut rep);
     // merge the two `c19.w.any` streams
     let mut merged: Vec<Stream> = vec![];
     for s in rep.streams.drain(..) {
